@@ -524,6 +524,11 @@ def enumerate_cases(tier):
         for pos in (0, 1, 2):
             for nested in (False, True):
                 cases.append({"kind": "raising-listener", "timed": timed, "pos": pos, "nested": nested})
+    # an object that is producer and listener at once and subscribes to itself (a component that reacts to its own
+    # events), before / after an ordinary listener
+    for first in (True, False):
+        for timed in (False, True):
+            cases.append({"kind": "self-listener", "self_first": first, "timed": timed})
     # two listener objects that compare equal (a value class such as a dataclass): all short histories
     n = 4 if tier == "quick" else 5
     for seq in itertools.product(range(len(_EQ_OPS)), repeat=n):
@@ -533,6 +538,56 @@ def enumerate_cases(tier):
 
 _EQ_OPS = [("add", "a", 0), ("add", "b", 0), ("add", "b", 1), ("rem", "a", 0), ("rem", "b", 0),
            ("rall", "a", None), ("rall", "b", None)]
+
+
+def _run_self_listener(case, out):
+    pubsub, types, _m = _env()
+    T, U = types[0], types[1]
+    got = []
+
+    class Component(pubsub.EventProducer, pubsub.EventListener):
+        def __init__(self):
+            pubsub.EventProducer.__init__(self)
+
+        def notify(self, event):
+            got.append(["self", event.event_type is T, event.content])
+            if event.event_type is T and event.content == 1:
+                self.fire(U, 2)                 # reacts to its own event with another event of its own
+
+    class Other(pubsub.EventListener):
+        def notify(self, event):
+            got.append(["other", event.event_type is T, event.content])
+    comp, other = Component(), Other()
+    order = [comp, other] if case["self_first"] else [other, comp]
+    for l_ in order:
+        e = _guard(lambda: comp.add_listener(T, l_))
+        if e is None:
+            e = _guard(lambda: comp.add_listener(U, l_))
+        if e is not None:
+            out.fail("unexpected-exception:self-listener:" + type(e).__name__, repr(e))
+            return
+    e = _guard((lambda: comp.fire_timed(1.5, T, 1)) if case["timed"] else (lambda: comp.fire(T, 1)))
+    if e is not None:
+        out.fail("delivery:raises", repr(e))
+        return
+    names = ["self", "other"] if case["self_first"] else ["other", "self"]
+    nested = [[n, False, 2] for n in names]
+    want = []
+    for n in names:
+        want.append([n, True, 1])
+        if n == "self":
+            want += nested
+    if got != want:
+        out.fail("delivery:missing" if len(got) < len(want) else "delivery:order",
+                 {"producer listening to itself": True, "got": got, "want": want})
+        return
+    comp.remove_listener(T, comp)
+    del got[:]
+    comp.fire(T, 5)
+    if got != [["other", True, 5]]:
+        out.fail("delivery:unsubscribed", {"got": got})
+    out.nontrivial = True
+    out.label("kind=self-listener")
 
 
 def _run_equal_listeners(case, out):
@@ -788,6 +843,9 @@ def run_case(case):
         return out
     if case.get("kind") == "raising-listener":
         _run_raising_listener(case, out)
+        return out
+    if case.get("kind") == "self-listener":
+        _run_self_listener(case, out)
         return out
     if case.get("kind") == "equal-listeners":
         _run_equal_listeners(case, out)
